@@ -61,12 +61,12 @@ def gen_module(rnd, n_funcs, long_names=False):
         deco = {"class": "@classmethod", "static": "@staticmethod", "property": "@property"}.get(kind)
         if deco:
             lines.append(indent + deco)
-        recv = {"instance": "self", "class": "cls", "property": "self"}.get(kind)
+        recv = {"instance": "self", "class": "cls", "property": "self", "new": "cls"}.get(kind)
         ps = sig_src(params)
         if recv:
             ps = recv + (", " + ps if ps else "")
         lines.append("%s%sdef %s(%s):" % (indent, "async " if is_async else "", name, ps))
-        lines.append(indent + ("    yield 1" if is_gen else "    return None"))
+        lines.append(indent + ("    yield 1" if is_gen else ("    return object.__new__(cls)" if kind == "new" else "    return None")))
         lines.append("")
         expected[qual] = (kind, is_async)
 
@@ -77,6 +77,8 @@ def gen_module(rnd, n_funcs, long_names=False):
     for i, kind in enumerate(("instance", "class", "static", "property", "instance")):
         ps = [] if kind == "property" else sigs[k % len(sigs)]; k += 1
         add("K.m%d" % i, "", ps, kind, "    ", is_async=(kind == "instance" and i == 4))
+    # a plain `def __new__(cls, ...)`: implicitly static, no decorator in the source, `cls` is the receiver
+    add("K.__new__", "", sigs[k % len(sigs)], "new", "    "); k += 1
     lines.append("class Outer:")
     lines.append("    class Inner:")
     add("Outer.Inner.deep", "", sigs[k % len(sigs)], "instance", "        ")
@@ -142,7 +144,7 @@ def mirror_problems(tree, mod, qs, expected):
         sp = stub_params(node)
         if [(n, k, d) for n, k, d, _ in sp] != real:
             problems.append("%s parameters %s != real %s" % (q, [(n, int(k), d) for n, k, d, _ in sp], [(n, int(k), d) for n, k, d in real]))
-        if kind in ("instance", "class", "property") and sp and sp[0][3]:
+        if kind in ("instance", "class", "property", "new") and sp and sp[0][3]:
             problems.append("%s receiver is annotated" % q)
     return problems
 
